@@ -299,6 +299,7 @@ def run(ctx):
 
     # ---------------- T1/T2/T3 value matchers
     literal_arms += matchers(ctx, bindings)
+    common.arm_state_independence(ctx, 'T3')        # no arm consults what other chunks brought before deciding to decode (seed C15-m)
 
     pixel_ratio(ctx)
 
